@@ -94,6 +94,8 @@ class Capture:
         def wsorted(it, key=None, reverse=False):
             if isinstance(it, set) and it and all(isinstance(x, tuple) for x in it):
                 cap._rec()['sets'].append([(int(a), int(b)) for a, b in it])
+                if len(cap._rec()['sets']) > cap._rec()['n'] + 8:      # one call per successful round of a Prim loop: at most n_nodes - 1
+                    raise SpinError('regular tree: the Prim loop does not terminate (guard)')
             return sorted(it, key=key, reverse=reverse)
 
         def select(cls, X):
